@@ -266,6 +266,36 @@ def run(tier, seed, replay):
                 if rep.violation("fault_exit", {"case": case}, "rustfmt --backup %s: the %s cannot succeed, exit status %d, expected 1" % (nm, "rename to .bk" if ps == "bk_dir" else "write of .tmp", rc)):
                     found += 1
             shutil.rmtree(d, ignore_errors=True)
+    # --- a SHORT write: the kernel accepts only a prefix of the temporary file (file-size limit, SIGXFSZ ignored); neither a crash nor,
+    # at first, an error -- the protocol must notice that not everything was written
+    d = os.path.join(base, "short_write")
+    os.makedirs(d)
+    big = "".join("fn  f%04d( a:u32,b:u32 )->u32{a+b+%d}\n" % (k, k) for k in range(1400))
+    open(os.path.join(d, "big.rs"), "w").write(big)
+    big_fmt = formatted(big, d)
+
+    def limit():
+        import resource
+        import signal
+        signal.signal(signal.SIGXFSZ, signal.SIG_IGN)
+        resource.setrlimit(resource.RLIMIT_FSIZE, (16384, 16384))
+    e_ = common.rust_env()
+    e_.pop("CARGO_TARGET_DIR", None)
+    pr = subprocess.run([common.bin_path("rustfmt"), "--backup", "big.rs"], cwd=d, env=dict(os.environ, **e_), capture_output=True, text=True, timeout=120, preexec_fn=limit)
+    listing = {x: open(os.path.join(d, x)).read() for x in sorted(os.listdir(d)) if os.path.isfile(os.path.join(d, x))}
+    cur = listing.get("big.rs")
+    case = {"name": "big.rs", "pre_state": "file-size limit 16384 bytes, formatted text %d bytes" % len(big_fmt), "rc": pr.returncode, "stderr": pr.stderr[-300:], "sizes_after": {k: len(v) for k, v in listing.items()}}
+    n_pre += 1
+    if big not in listing.values():
+        if rep.violation("original_lost", {"case": case}, "rustfmt --backup big.rs under a file-size limit (exit %d): the original text is in no file of the directory any more" % pr.returncode):
+            found += 1
+    if cur is not None and cur not in (big, big_fmt):
+        if rep.violation("partial_file", {"case": case}, "rustfmt --backup big.rs under a file-size limit (exit %d): the file holds %d bytes, neither the original (%d) nor the formatted text (%d)" % (pr.returncode, len(cur), len(big), len(big_fmt))):
+            found += 1
+    if pr.returncode == 0 and cur != big_fmt:
+        if rep.violation("success_post", {"case": case}, "rustfmt --backup big.rs under a file-size limit exits 0 but the file is not the formatted text"):
+            found += 1
+    shutil.rmtree(d, ignore_errors=True)
     # --- one file reached under two spellings of its path (a recorded defect of the module resolver, C13): it is emitted twice
     d = os.path.join(base, "two_spellings")
     os.makedirs(os.path.join(d, "sub"))
